@@ -1,38 +1,62 @@
-// Package sqltok is a lexer for PostgreSQL SQL text following src/backend/parser/scan.l with
-// standard_conforming_strings = on (the server default since 9.1), plus the client-side `@name`
-// named-argument form that pgx rewrites before the text reaches the server. It is written from
-// the PostgreSQL lexical rules, not from DAWGS's formatter, so that it can act as an independent
-// judge of what token structure the emitted text has.
+// Package sqltok is a lexer for PostgreSQL SQL text following src/backend/parser/scan.l (PostgreSQL
+// 16/17 rules) with standard_conforming_strings = on (the server default since 9.1) and a UTF-8
+// server encoding, plus the client-side `@name` named-argument form that pgx rewrites before the
+// text reaches the server. It is written from the PostgreSQL lexical rules, not from DAWGS's
+// formatter, so that it can act as an independent judge of what token structure the emitted text has.
+//
+// Rules of scan.l that are modelled (each is covered by sqltok_test.go):
+//
+//   - whitespace is [ \t\n\r\f\v]; `--` comments end at \n or \r only; /* */ comments nest;
+//   - '...' with ” for a quote and NO backslash escapes; E'...' with backslash escapes (\b \f \n \r \t
+//     \v, octal, \x hex, \uXXXX, \UXXXXXXXX incl. surrogate pairs, \c = c); B'..' / X'..'; U&'...' and
+//     U&"..." with \XXXX, \+XXXXXX, \\ escapes (default escape character; a following UESCAPE clause is
+//     the grammar's business); N'...' lexes as the keyword nchar followed by a plain string;
+//   - string continuation: a literal followed by whitespace that contains a newline (comments
+//     allowed) and another quote continues as ONE literal ('a'\n'b' is 'ab');
+//   - "..." with "" for a quote; the zero-length identifier "" is an error;
+//   - $tag$...$tag$ with tag = [A-Za-z\200-\377_][A-Za-z\200-\377_0-9]*; `$` inside an identifier
+//     belongs to the identifier;
+//   - identifiers [A-Za-z\200-\377_][A-Za-z\200-\377_0-9$]*, folded to lower case for ASCII letters
+//     only and truncated to NAMEDATALEN-1 = 63 bytes at a character boundary (quoted identifiers are
+//     truncated as well, not folded);
+//   - operators: the longest run of + - * / < > = ~ ! @ # % ^ & | ` ? cut at an embedded -- or /*, and
+//     with trailing + / - stripped unless the run contains one of ~ ! @ # % ^ & | ` ?;
+//   - numbers: decimal / 0x / 0o / 0b integers with single underscores, numerics, reals; "1..2" lexes
+//     as 1 .. 2; a number or a $n parameter immediately followed by an identifier is an error
+//     ("trailing junk", PostgreSQL >= 15);
+//   - any other byte is an error.
+//
+// Everything PostgreSQL rejects at the lexical level is returned as a Bad token.
 package sqltok
 
 import (
 	"strings"
-	"unicode"
 	"unicode/utf8"
 )
 
 type Kind int
 
 const (
-	Word        Kind = iota // unquoted identifier or keyword
-	QuotedIdent             // "..." ; Value is the decoded name
-	String                  // '...' ; Value is the decoded value
-	EString                 // E'...' ; Value decoded with backslash escapes
-	UString                 // U&'...'
-	DollarString            // $tag$...$tag$ ; Value is the body
-	BitString               // B'...' / X'...'
+	Word         Kind = iota // unquoted identifier or keyword; Value is the folded, truncated name
+	QuotedIdent              // "..." ; Value is the decoded (truncated) name
+	String                   // '...' ; Value is the decoded value
+	EString                  // E'...' ; Value decoded with backslash escapes
+	UString                  // U&'...' ; Value decoded with the default escape character
+	DollarString             // $tag$...$tag$ ; Value is the body
+	BitString                // B'...' / X'...'
 	Number
 	Param      // $1
-	NamedParam // @name (pgx named argument)
+	NamedParam // @name (pgx named argument; Value is the name)
 	Operator
-	Punct   // ( ) [ ] , ; : .
+	Punct   // ( ) [ ] , ; : . := ..
 	Cast    // ::
 	Comment // -- ... or /* ... */ (nested)
-	Bad     // unterminated literal / comment, stray byte
+	Bad     // anything the PostgreSQL lexer rejects; Value says why
+	UIdent  // U&"..." ; Value decoded with the default escape character
 )
 
 func (k Kind) String() string {
-	return [...]string{"Word", "QuotedIdent", "String", "EString", "UString", "DollarString", "BitString", "Number", "Param", "NamedParam", "Operator", "Punct", "Cast", "Comment", "Bad"}[k]
+	return [...]string{"Word", "QuotedIdent", "String", "EString", "UString", "DollarString", "BitString", "Number", "Param", "NamedParam", "Operator", "Punct", "Cast", "Comment", "Bad", "UIdent"}[k]
 }
 
 type Token struct {
@@ -40,37 +64,88 @@ type Token struct {
 	Text  string // raw text
 	Value string // decoded value for literals / identifiers
 	Pos   int
+	// Truncated is set when an identifier was longer than NAMEDATALEN-1 bytes and PostgreSQL would
+	// truncate it (Value holds the truncated name).
+	Truncated bool
 }
+
+// NameDataLen is PostgreSQL's NAMEDATALEN.
+const NameDataLen = 64
 
 const opChars = "+-*/<>=~!@#%^&|`?"
+const opNonSQL = "~!@#%^&|`?"
 
-func isIdentStart(r rune) bool {
-	return r == '_' || unicode.IsLetter(r) || r >= 0x80
+func isSpace(c byte) bool {
+	return c == ' ' || c == '\t' || c == '\n' || c == '\r' || c == '\f' || c == '\v'
 }
 
-func isIdentCont(r rune) bool {
-	return isIdentStart(r) || unicode.IsDigit(r) || r == '$'
+func isDigit(c byte) bool { return c >= '0' && c <= '9' }
+
+func isHex(c byte) bool {
+	return isDigit(c) || (c >= 'a' && c <= 'f') || (c >= 'A' && c <= 'F')
 }
+
+// ident_start [A-Za-z\200-\377_]
+func isIdentStart(c byte) bool {
+	return c == '_' || (c >= 'a' && c <= 'z') || (c >= 'A' && c <= 'Z') || c >= 0x80
+}
+
+// ident_cont [A-Za-z\200-\377_0-9\$]
+func isIdentCont(c byte) bool { return isIdentStart(c) || isDigit(c) || c == '$' }
+
+func isASCIILetter(c byte) bool { return (c >= 'a' && c <= 'z') || (c >= 'A' && c <= 'Z') }
+
+// clip truncates to at most NAMEDATALEN-1 bytes at a UTF-8 character boundary (pg_mbcliplen).
+func clip(s string) (string, bool) {
+	if len(s) < NameDataLen {
+		return s, false
+	}
+	n := NameDataLen - 1
+	for n > 0 && !utf8.RuneStart(s[n]) {
+		n--
+	}
+	return s[:n], true
+}
+
+// foldIdent is downcase_identifier for a multi-byte server encoding: ASCII letters only.
+func foldIdent(s string) string {
+	b := []byte(s)
+	for i, c := range b {
+		if c >= 'A' && c <= 'Z' {
+			b[i] = c + 'a' - 'A'
+		}
+	}
+	return string(b)
+}
+
+type lexer struct {
+	s   string
+	out []Token
+}
+
+func (l *lexer) emit(k Kind, start, end int, val string) *Token {
+	l.out = append(l.out, Token{Kind: k, Text: l.s[start:end], Value: val, Pos: start})
+	return &l.out[len(l.out)-1]
+}
+
+func (l *lexer) bad(start, end int, why string) { l.emit(Bad, start, end, why) }
 
 // Lex tokenises the whole text; whitespace is dropped, comments are kept as tokens.
 func Lex(s string) []Token {
-	var out []Token
+	l := &lexer{s: s}
 	i := 0
 	n := len(s)
-	emit := func(k Kind, start, end int, val string) {
-		out = append(out, Token{Kind: k, Text: s[start:end], Value: val, Pos: start})
-	}
 	for i < n {
 		c := s[i]
 		switch {
-		case c == ' ' || c == '\t' || c == '\n' || c == '\r' || c == '\f' || c == '\v':
+		case isSpace(c):
 			i++
 		case c == '-' && i+1 < n && s[i+1] == '-':
 			j := i
 			for j < n && s[j] != '\n' && s[j] != '\r' {
 				j++
 			}
-			emit(Comment, i, j, "")
+			l.emit(Comment, i, j, "")
 			i = j
 		case c == '/' && i+1 < n && s[i+1] == '*':
 			depth, j := 1, i+2
@@ -86,212 +161,496 @@ func Lex(s string) []Token {
 				}
 			}
 			if depth > 0 {
-				emit(Bad, i, n, "unterminated comment")
+				l.bad(i, n, "unterminated /* comment")
 				i = n
 			} else {
-				emit(Comment, i, j, "")
+				l.emit(Comment, i, j, "")
 				i = j
 			}
 		case c == '\'':
-			j, val, ok := scanQuoted(s, i, '\'', false)
-			if !ok {
-				emit(Bad, i, n, "unterminated string")
-				i = n
-			} else {
-				emit(String, i, j, val)
-				i = j
-			}
+			i = l.quoted(i, i, String)
 		case c == '"':
-			j, val, ok := scanQuoted(s, i, '"', false)
-			if !ok {
-				emit(Bad, i, n, "unterminated quoted identifier")
-				i = n
-			} else {
-				emit(QuotedIdent, i, j, val)
-				i = j
-			}
+			i = l.quoted(i, i, QuotedIdent)
 		case (c == 'E' || c == 'e') && i+1 < n && s[i+1] == '\'':
-			j, val, ok := scanQuoted(s, i+1, '\'', true)
-			if !ok {
-				emit(Bad, i, n, "unterminated E string")
-				i = n
-			} else {
-				emit(EString, i, j, val)
-				i = j
-			}
+			i = l.quoted(i, i+1, EString)
 		case (c == 'B' || c == 'b' || c == 'X' || c == 'x') && i+1 < n && s[i+1] == '\'':
-			j, val, ok := scanQuoted(s, i+1, '\'', false)
-			if !ok {
-				emit(Bad, i, n, "unterminated bit string")
-				i = n
-			} else {
-				emit(BitString, i, j, val)
-				i = j
-			}
-		case (c == 'U' || c == 'u') && i+2 < n && s[i+1] == '&' && (s[i+2] == '\'' || s[i+2] == '"'):
-			q := s[i+2]
-			j, val, ok := scanQuoted(s, i+2, q, false)
-			if !ok {
-				emit(Bad, i, n, "unterminated unicode literal")
-				i = n
-			} else {
-				emit(UString, i, j, val)
-				i = j
-			}
-		case c == '$':
-			// $1 parameter, $tag$ dollar quote, or stray
-			if i+1 < n && s[i+1] >= '0' && s[i+1] <= '9' {
-				j := i + 1
-				for j < n && s[j] >= '0' && s[j] <= '9' {
-					j++
-				}
-				emit(Param, i, j, s[i+1:j])
-				i = j
-				break
-			}
-			j := i + 1
-			for j < n {
-				r, sz := utf8.DecodeRuneInString(s[j:])
-				if !(isIdentStart(r) || (j > i+1 && unicode.IsDigit(r))) || r == '$' {
-					break
-				}
-				j += sz
-			}
-			if j < n && s[j] == '$' {
-				tag := s[i : j+1]
-				end := strings.Index(s[j+1:], tag)
-				if end < 0 {
-					emit(Bad, i, n, "unterminated dollar quote")
-					i = n
-				} else {
-					emit(DollarString, i, j+1+end+len(tag), s[j+1:j+1+end])
-					i = j + 1 + end + len(tag)
-				}
-				break
-			}
-			emit(Bad, i, i+1, "stray $")
+			i = l.quoted(i, i+1, BitString)
+		case (c == 'N' || c == 'n') && i+1 < n && s[i+1] == '\'':
+			// xnstart: yyless(1), the keyword nchar is returned, then a plain string follows
+			l.emit(Word, i, i+1, "nchar")
 			i++
-		case c >= '0' && c <= '9' || (c == '.' && i+1 < n && s[i+1] >= '0' && s[i+1] <= '9'):
-			j := i
-			for j < n && (s[j] >= '0' && s[j] <= '9') {
-				j++
-			}
-			if j < n && s[j] == '.' && !(j+1 < n && s[j+1] == '.') {
-				j++
-				for j < n && (s[j] >= '0' && s[j] <= '9') {
-					j++
-				}
-			}
-			if j < n && (s[j] == 'e' || s[j] == 'E') {
-				k := j + 1
-				if k < n && (s[k] == '+' || s[k] == '-') {
-					k++
-				}
-				if k < n && s[k] >= '0' && s[k] <= '9' {
-					for k < n && s[k] >= '0' && s[k] <= '9' {
-						k++
-					}
-					j = k
-				}
-			}
-			emit(Number, i, j, "")
-			i = j
+		case (c == 'U' || c == 'u') && i+2 < n && s[i+1] == '&' && s[i+2] == '\'':
+			i = l.quoted(i, i+2, UString)
+		case (c == 'U' || c == 'u') && i+2 < n && s[i+1] == '&' && s[i+2] == '"':
+			i = l.quoted(i, i+2, UIdent)
+		case c == '$':
+			i = l.dollar(i)
+		case isDigit(c) || (c == '.' && i+1 < n && isDigit(s[i+1])):
+			i = l.number(i)
 		case c == ':' && i+1 < n && s[i+1] == ':':
-			emit(Cast, i, i+2, "")
+			l.emit(Cast, i, i+2, "")
+			i += 2
+		case c == ':' && i+1 < n && s[i+1] == '=':
+			l.emit(Punct, i, i+2, "")
+			i += 2
+		case c == '.' && i+1 < n && s[i+1] == '.':
+			l.emit(Punct, i, i+2, "")
 			i += 2
 		case strings.IndexByte("()[],;:.", c) >= 0:
-			emit(Punct, i, i+1, "")
+			l.emit(Punct, i, i+1, "")
 			i++
-		case c == '@' && i+1 < n && func() bool { r, _ := utf8.DecodeRuneInString(s[i+1:]); return isIdentStart(r) }():
+		case c == '@' && i+1 < n && (isASCIILetter(s[i+1]) || s[i+1] == '_'):
+			// pgx named argument: @ followed by [A-Za-z_][A-Za-z0-9_]* (pgx/v5 named_args.go)
 			j := i + 1
-			for j < n {
-				r, sz := utf8.DecodeRuneInString(s[j:])
-				if !isIdentCont(r) || r == '$' {
-					break
-				}
-				j += sz
+			for j < n && (isASCIILetter(s[j]) || isDigit(s[j]) || s[j] == '_') {
+				j++
 			}
-			emit(NamedParam, i, j, s[i+1:j])
+			l.emit(NamedParam, i, j, s[i+1:j])
 			i = j
 		case strings.IndexByte(opChars, c) >= 0:
 			j := i
 			for j < n && strings.IndexByte(opChars, s[j]) >= 0 {
-				// a comment start ends the operator
+				// an embedded comment start ends the operator
 				if j > i && ((s[j] == '-' && j+1 < n && s[j+1] == '-') || (s[j] == '/' && j+1 < n && s[j+1] == '*')) {
 					break
 				}
 				j++
 			}
-			// scan.l: a multi-char operator may not end in + or - unless it contains one of ~!@#%^&|`?
+			// a multi-char operator may not end in + or - unless it contains one of ~!@#%^&|`?
 			op := s[i:j]
-			if len(op) > 1 && (op[len(op)-1] == '+' || op[len(op)-1] == '-') && !strings.ContainsAny(op, "~!@#%^&|`?") {
+			if len(op) > 1 && (op[len(op)-1] == '+' || op[len(op)-1] == '-') && !strings.ContainsAny(op, opNonSQL) {
 				for len(op) > 1 && (op[len(op)-1] == '+' || op[len(op)-1] == '-') {
 					op = op[:len(op)-1]
 				}
 				j = i + len(op)
 			}
-			emit(Operator, i, j, "")
+			l.emit(Operator, i, j, "")
+			i = j
+		case isIdentStart(c):
+			j := i + 1
+			for j < n && isIdentCont(s[j]) {
+				j++
+			}
+			v, tr := clip(foldIdent(s[i:j]))
+			l.emit(Word, i, j, v).Truncated = tr
 			i = j
 		default:
-			r, sz := utf8.DecodeRuneInString(s[i:])
-			if isIdentStart(r) {
-				j := i + sz
-				for j < n {
-					r2, sz2 := utf8.DecodeRuneInString(s[j:])
-					if !isIdentCont(r2) {
-						break
-					}
-					j += sz2
-				}
-				emit(Word, i, j, strings.ToLower(s[i:j]))
-				i = j
-			} else {
-				emit(Bad, i, i+sz, "stray byte")
-				i += sz
-			}
+			_, sz := utf8.DecodeRuneInString(s[i:])
+			l.bad(i, i+sz, "stray byte")
+			i += sz
 		}
 	}
-	return out
+	return l.out
 }
 
-// scanQuoted scans a literal that starts with quote at s[start]; doubled quotes escape; with
-// backslash=true backslash escapes are honoured (E strings). Returns the index after the closing quote.
-func scanQuoted(s string, start int, quote byte, backslash bool) (int, string, bool) {
+// continuation implements {quotecontinue}: starting right after a closing quote at p, horizontal
+// whitespace / comments, a newline, any whitespace / comment lines and then another quote continue
+// the same literal. Returns the index of that quote.
+func continuation(s string, p int) (int, bool) {
+	n := len(s)
+	j := p
+	// {horiz_whitespace}* = ([ \t\f] | comment)*
+	for j < n {
+		if s[j] == ' ' || s[j] == '\t' || s[j] == '\f' {
+			j++
+		} else if s[j] == '-' && j+1 < n && s[j+1] == '-' {
+			for j < n && s[j] != '\n' && s[j] != '\r' {
+				j++
+			}
+		} else {
+			break
+		}
+	}
+	// {newline}
+	if j >= n || (s[j] != '\n' && s[j] != '\r') {
+		return 0, false
+	}
+	j++
+	// {special_whitespace}* = (space+ | comment newline)*
+	for j < n {
+		if isSpace(s[j]) {
+			j++
+		} else if s[j] == '-' && j+1 < n && s[j+1] == '-' {
+			k := j
+			for k < n && s[k] != '\n' && s[k] != '\r' {
+				k++
+			}
+			if k >= n {
+				return 0, false // a comment that is not followed by a newline is not special_whitespace
+			}
+			j = k + 1
+		} else {
+			break
+		}
+	}
+	if j < n && s[j] == '\'' {
+		return j, true
+	}
+	return 0, false
+}
+
+// quoted scans a quoted literal whose token starts at tokStart and whose opening quote is at q.
+func (l *lexer) quoted(tokStart, q int, kind Kind) int {
+	s := l.s
+	n := len(s)
+	quote := s[q]
 	var sb strings.Builder
-	j := start + 1
-	for j < len(s) {
+	j := q + 1
+	why := ""
+	for {
+		if j >= n {
+			what := map[Kind]string{String: "quoted string", EString: "quoted string", UString: "quoted string", BitString: "bit/hexadecimal string literal", QuotedIdent: "quoted identifier", UIdent: "quoted identifier"}[kind]
+			l.bad(tokStart, n, "unterminated "+what)
+			return n
+		}
 		c := s[j]
-		switch {
-		case c == quote:
-			if j+1 < len(s) && s[j+1] == quote {
+		if c == quote {
+			if j+1 < n && s[j+1] == quote {
 				sb.WriteByte(quote)
 				j += 2
 				continue
 			}
-			return j + 1, sb.String(), true
-		case backslash && c == '\\' && j+1 < len(s):
-			j++
-			switch s[j] {
-			case 'n':
-				sb.WriteByte('\n')
-			case 't':
-				sb.WriteByte('\t')
-			case 'r':
-				sb.WriteByte('\r')
-			case 'b':
-				sb.WriteByte('\b')
-			case 'f':
-				sb.WriteByte('\f')
-			default:
-				sb.WriteByte(s[j])
+			// closing quote; string kinds may continue after whitespace with a newline
+			if quote == '\'' {
+				if nq, ok := continuation(s, j+1); ok {
+					j = nq + 1
+					continue
+				}
 			}
 			j++
-		default:
+			break
+		}
+		if kind == EString && c == '\\' {
+			if j+1 >= n {
+				l.bad(tokStart, n, "unterminated quoted string")
+				return n
+			}
+			adv, w := decodeEEscape(s, j, &sb)
+			if w != "" && why == "" {
+				why = w
+			}
+			j += adv
+			continue
+		}
+		sb.WriteByte(c)
+		j++
+	}
+	val := sb.String()
+	if why != "" {
+		l.bad(tokStart, j, why)
+		return j
+	}
+	switch kind {
+	case UString, UIdent:
+		dec, err := decodeUnicodeEscapes(val)
+		if err != "" {
+			l.bad(tokStart, j, err)
+			return j
+		}
+		val = dec
+	}
+	switch kind {
+	case QuotedIdent, UIdent:
+		if val == "" {
+			l.bad(tokStart, j, "zero-length delimited identifier")
+			return j
+		}
+		v, tr := clip(val)
+		l.emit(kind, tokStart, j, v).Truncated = tr
+		return j
+	}
+	l.emit(kind, tokStart, j, val)
+	return j
+}
+
+// decodeEEscape decodes the backslash escape at s[j] (E'' string); returns the bytes consumed.
+func decodeEEscape(s string, j int, sb *strings.Builder) (int, string) {
+	n := len(s)
+	c := s[j+1]
+	switch {
+	case c >= '0' && c <= '7':
+		k := j + 1
+		v := 0
+		for k < n && k < j+4 && s[k] >= '0' && s[k] <= '7' {
+			v = v*8 + int(s[k]-'0')
+			k++
+		}
+		sb.WriteByte(byte(v))
+		if byte(v) == 0 {
+			return k - j, "invalid byte sequence (NUL) in escape string"
+		}
+		return k - j, ""
+	case c == 'x' && j+2 < n && isHex(s[j+2]):
+		k := j + 2
+		v := 0
+		for k < n && k < j+4 && isHex(s[k]) {
+			v = v*16 + hexVal(s[k])
+			k++
+		}
+		sb.WriteByte(byte(v))
+		if byte(v) == 0 {
+			return k - j, "invalid byte sequence (NUL) in escape string"
+		}
+		return k - j, ""
+	case c == 'u' || c == 'U':
+		want := 4
+		if c == 'U' {
+			want = 8
+		}
+		if j+2+want > n {
+			return 2, "invalid Unicode escape"
+		}
+		v := 0
+		for k := j + 2; k < j+2+want; k++ {
+			if !isHex(s[k]) {
+				return 2, "invalid Unicode escape"
+			}
+			v = v*16 + hexVal(s[k])
+		}
+		adv := 2 + want
+		if v >= 0xD800 && v <= 0xDBFF {
+			// first half of a surrogate pair: a second \u / \U escape must follow
+			k := j + adv
+			if k+1 < n && s[k] == '\\' && (s[k+1] == 'u' || s[k+1] == 'U') {
+				w2 := 4
+				if s[k+1] == 'U' {
+					w2 = 8
+				}
+				if k+2+w2 <= n {
+					v2, ok := 0, true
+					for m := k + 2; m < k+2+w2; m++ {
+						if !isHex(s[m]) {
+							ok = false
+							break
+						}
+						v2 = v2*16 + hexVal(s[m])
+					}
+					if ok && v2 >= 0xDC00 && v2 <= 0xDFFF {
+						sb.WriteRune(rune(0x10000 + (v-0xD800)<<10 + (v2 - 0xDC00)))
+						return adv + 2 + w2, ""
+					}
+				}
+			}
+			return adv, "invalid Unicode surrogate pair"
+		}
+		if v == 0 || (v >= 0xDC00 && v <= 0xDFFF) || v > 0x10FFFF {
+			return adv, "invalid Unicode escape value"
+		}
+		sb.WriteRune(rune(v))
+		return adv, ""
+	}
+	switch c {
+	case 'b':
+		sb.WriteByte('\b')
+	case 'f':
+		sb.WriteByte('\f')
+	case 'n':
+		sb.WriteByte('\n')
+	case 'r':
+		sb.WriteByte('\r')
+	case 't':
+		sb.WriteByte('\t')
+	case 'v':
+		sb.WriteByte('\v')
+	default:
+		sb.WriteByte(c)
+	}
+	return 2, ""
+}
+
+func hexVal(c byte) int {
+	switch {
+	case c >= '0' && c <= '9':
+		return int(c - '0')
+	case c >= 'a' && c <= 'f':
+		return int(c-'a') + 10
+	default:
+		return int(c-'A') + 10
+	}
+}
+
+// decodeUnicodeEscapes is str_udeescape with the default escape character.
+func decodeUnicodeEscapes(in string) (string, string) {
+	var sb strings.Builder
+	n := len(in)
+	var pending int // pending first surrogate
+	for i := 0; i < n; {
+		c := in[i]
+		if c != '\\' {
+			if pending != 0 {
+				return "", "invalid Unicode surrogate pair"
+			}
 			sb.WriteByte(c)
+			i++
+			continue
+		}
+		if i+1 < n && in[i+1] == '\\' {
+			if pending != 0 {
+				return "", "invalid Unicode surrogate pair"
+			}
+			sb.WriteByte('\\')
+			i += 2
+			continue
+		}
+		start, want := i+1, 4
+		if i+1 < n && in[i+1] == '+' {
+			start, want = i+2, 6
+		}
+		if start+want > n {
+			return "", "invalid Unicode escape"
+		}
+		v := 0
+		for k := start; k < start+want; k++ {
+			if !isHex(in[k]) {
+				return "", "invalid Unicode escape"
+			}
+			v = v*16 + hexVal(in[k])
+		}
+		i = start + want
+		switch {
+		case pending != 0:
+			if v < 0xDC00 || v > 0xDFFF {
+				return "", "invalid Unicode surrogate pair"
+			}
+			sb.WriteRune(rune(0x10000 + (pending-0xD800)<<10 + (v - 0xDC00)))
+			pending = 0
+		case v >= 0xD800 && v <= 0xDBFF:
+			pending = v
+		case v == 0 || (v >= 0xDC00 && v <= 0xDFFF) || v > 0x10FFFF:
+			return "", "invalid Unicode escape value"
+		default:
+			sb.WriteRune(rune(v))
+		}
+	}
+	if pending != 0 {
+		return "", "invalid Unicode surrogate pair"
+	}
+	return sb.String(), ""
+}
+
+// dollar handles $n parameters, $tag$ dollar quotes and a stray $.
+func (l *lexer) dollar(i int) int {
+	s := l.s
+	n := len(s)
+	if i+1 < n && isDigit(s[i+1]) {
+		j := i + 1
+		for j < n && isDigit(s[j]) {
+			j++
+		}
+		if j < n && isIdentStart(s[j]) {
+			// param_junk
+			k := j
+			for k < n && isIdentCont(s[k]) {
+				k++
+			}
+			l.bad(i, k, "trailing junk after parameter")
+			return k
+		}
+		l.emit(Param, i, j, s[i+1:j])
+		return j
+	}
+	// dolqdelim \$({dolq_start}{dolq_cont}*)?\$ ; dolq_cont has no $
+	j := i + 1
+	if j < n && isIdentStart(s[j]) {
+		j++
+		for j < n && (isIdentStart(s[j]) || isDigit(s[j])) {
 			j++
 		}
 	}
-	return len(s), "", false
+	if j < n && s[j] == '$' {
+		tag := s[i : j+1]
+		end := strings.Index(s[j+1:], tag)
+		if end < 0 {
+			l.bad(i, n, "unterminated dollar-quoted string")
+			return n
+		}
+		stop := j + 1 + end + len(tag)
+		l.emit(DollarString, i, stop, s[j+1:j+1+end])
+		return stop
+	}
+	// dolqfailed: the $ is returned on its own and no grammar rule accepts it
+	l.bad(i, i+1, "stray $")
+	return i + 1
+}
+
+// number handles integer / numeric / real literals and the "trailing junk" errors.
+func (l *lexer) number(i int) int {
+	s := l.s
+	n := len(s)
+	digits := func(j int, ok func(byte) bool) int {
+		// {d}(_?{d})*
+		for j < n {
+			if ok(s[j]) {
+				j++
+			} else if s[j] == '_' && j+1 < n && ok(s[j+1]) {
+				j += 2
+			} else {
+				break
+			}
+		}
+		return j
+	}
+	junk := func(j int) int {
+		k := j
+		for k < n && isIdentCont(s[k]) {
+			k++
+		}
+		l.bad(i, k, "trailing junk after numeric literal")
+		return k
+	}
+	if s[i] == '0' && i+1 < n && strings.IndexByte("xXoObB", s[i+1]) >= 0 {
+		var ok func(byte) bool
+		switch s[i+1] {
+		case 'x', 'X':
+			ok = isHex
+		case 'o', 'O':
+			ok = func(c byte) bool { return c >= '0' && c <= '7' }
+		default:
+			ok = func(c byte) bool { return c == '0' || c == '1' }
+		}
+		j := i + 2
+		if j < n && s[j] == '_' && j+1 < n && ok(s[j+1]) {
+			j++
+		}
+		if j < n && ok(s[j]) {
+			j = digits(j, ok)
+			if j < n && isIdentCont(s[j]) {
+				return junk(j)
+			}
+			l.emit(Number, i, j, "")
+			return j
+		}
+		return junk(i + 1) // hexfail / octfail / binfail
+	}
+	j := i
+	if isDigit(s[j]) {
+		j = digits(j, isDigit)
+	}
+	if j < n && s[j] == '.' && !(j+1 < n && s[j+1] == '.') {
+		// numeric: {decinteger}\.{decinteger}? | \.{decinteger}
+		j++
+		if j < n && isDigit(s[j]) {
+			j = digits(j, isDigit)
+		}
+	}
+	if j < n && (s[j] == 'e' || s[j] == 'E') {
+		k := j + 1
+		if k < n && (s[k] == '+' || s[k] == '-') {
+			k++
+		}
+		if k < n && isDigit(s[k]) {
+			j = digits(k, isDigit)
+		} else if k > j+1 {
+			// realfail: 1e+ without digits
+			l.bad(i, k, "trailing junk after numeric literal")
+			return k
+		}
+	}
+	if j < n && isIdentStart(s[j]) {
+		return junk(j)
+	}
+	l.emit(Number, i, j, "")
+	return j
 }
 
 // Significant drops comments.
@@ -303,4 +662,14 @@ func Significant(toks []Token) []Token {
 		}
 	}
 	return out
+}
+
+// FirstBad returns the first token PostgreSQL's lexer would reject, or nil.
+func FirstBad(toks []Token) *Token {
+	for i := range toks {
+		if toks[i].Kind == Bad {
+			return &toks[i]
+		}
+	}
+	return nil
 }
